@@ -11,6 +11,47 @@ mod vcore;
 
 use vcore::{Ctx, Tier};
 
+/// Counting allocator: records the largest single allocation request per thread (C15's
+/// "memory out of proportion" monitor). Pass-through to the system allocator otherwise.
+pub struct CountingAlloc;
+
+thread_local! {
+    pub static MAX_ALLOC_REQ: std::cell::Cell<usize> = const { std::cell::Cell::new(0) };
+}
+
+unsafe impl std::alloc::GlobalAlloc for CountingAlloc {
+    unsafe fn alloc(&self, l: std::alloc::Layout) -> *mut u8 {
+        let _ = MAX_ALLOC_REQ.try_with(|m| {
+            if l.size() > m.get() {
+                m.set(l.size())
+            }
+        });
+        std::alloc::System.alloc(l)
+    }
+    unsafe fn dealloc(&self, p: *mut u8, l: std::alloc::Layout) {
+        std::alloc::System.dealloc(p, l)
+    }
+    unsafe fn alloc_zeroed(&self, l: std::alloc::Layout) -> *mut u8 {
+        let _ = MAX_ALLOC_REQ.try_with(|m| {
+            if l.size() > m.get() {
+                m.set(l.size())
+            }
+        });
+        std::alloc::System.alloc_zeroed(l)
+    }
+    unsafe fn realloc(&self, p: *mut u8, l: std::alloc::Layout, n: usize) -> *mut u8 {
+        let _ = MAX_ALLOC_REQ.try_with(|m| {
+            if n > m.get() {
+                m.set(n)
+            }
+        });
+        std::alloc::System.realloc(p, l, n)
+    }
+}
+
+#[global_allocator]
+static GLOBAL: CountingAlloc = CountingAlloc;
+
 fn main() {
     let args: Vec<String> = std::env::args().collect();
     if args.len() < 2 {
